@@ -38,6 +38,10 @@ CHECKS = {
          "For each seeded journal history the index file is replaced by every variant of a catalogue (missing, empty, valid, every truncation point, every byte flipped, random bytes, stale index of each earlier clean close, index of another journal, checksum-valid-but-wrong ranges, EIO on read); the store is opened read-write and read-only and must show the same root and the same readable chunks (byte for byte) as with no index; the read-only open must issue no mutating file operation (observed at the simulated OS).",
          "Forged indexes (checksums recomputed over altered contents) are probes only. Two known findings (lookup offset/length not covered by the batch CRC) are listed in known_findings.txt.",
          "deterministic simulation: at-rest fault enumeration of the index file against the no-index reference, OS-level write observation", "DESIGN.md §6.1 C04", "dsim-store"),
+ "C06": ("exploration",
+         "Claimed for the I/O surface. Seeded histories drive the real table-file and archive writers (memtable persist, conjoin, GC copier, archive stream writer) on a simulated disk; half of the runs inject ENOSPC, EIO, short writes, fsync, rename and create errors into table/archive file operations. After every operation each file under a final table or archive name is opened on its own and must read back completely and report the right count; an independent instance must read every committed chunk byte for byte and report adjacent absent addresses absent. In the fault-free configuration any error is a violation; with faults an operation may fail but may never leave a short or damaged file under a final name or lose committed chunks.",
+         "The chunk multiset itself is input-quantified and rides along as workload (incl. duplicates, empty, compressible/incompressible, genuine 8-byte-prefix collisions). Dictionary-grouped archives cannot be produced by this tree's GC and are not exercised. Manifest faults are C05's subject.",
+         "deterministic simulation: write-fault injection at the OS seam under the real writers, per-file read-back oracle", "DESIGN.md §6.1 C06", "dsim-store"),
  "C07": ("exploration",
          "Seeded histories of puts whose child lists point to committed, pending or never-written chunks, commits (right/stale expectation, arbitrary roots), table files handed over through WriteTableFile + AddTableFilesToManifest, rebase and clean reopen on file-manifest and journaling stores with tiny memtables; after every state-changing step an independent second instance opens the directory and walks the persisted root over the store's own bytes: every reachable address must be present; a rejected commit must leave the persisted root alone and the store usable.",
          "The arbiter is the reachability walk on persisted state, not the model's prediction (the store may be stricter than the model). Three known findings about AddTableFilesToManifest are listed in known_findings.txt. Ghost (shallow clone) commits are not exercised.",
